@@ -1,7 +1,8 @@
 #!/bin/sh
 # usage: tools/benign_regression.sh [slots=3]
 # Runs the quick tier of all 20 checks against every behaviour-preserving change kept under seeded/_benign/ (private
-# copies, tools/ns_all.sh). Any check that does not exit 0 on one of them is a false alarm. Writes seeded/_benign/RESULT.txt.
+# copies, tools/ns_all.sh). Any check that does not exit 0 on one of them is a false alarm. Writes seeded/_benign/RESULT.txt
+# (BENIGN_OUT=<file> to write elsewhere; BENIGN_IDS="C01 C04 ..." to run only those checks).
 cd /verif
 SLOTS="${1:-3}"
 eval "$(tools/ns_snapshot.sh)"
@@ -10,12 +11,13 @@ rm -f /root/benign.out.*
 i=0
 while [ $i -lt "$SLOTS" ]; do
     ( n=0; while read d; do
-        if [ $((n % SLOTS)) -eq $i ]; then P="$d/patch.diff"; [ -f "$d/patch.rebased.diff" ] && P="$d/patch.rebased.diff"; tools/ns_all.sh $((10 + i)) "$P"; fi
+        if [ $((n % SLOTS)) -eq $i ]; then P="$d/patch.diff"; [ -f "$d/patch.rebased.diff" ] && P="$d/patch.rebased.diff"; tools/ns_all.sh $((10 + i)) "$P" $BENIGN_IDS; fi
         n=$((n+1))
       done < /root/benign.list ) > /root/benign.out.$i 2>&1 &
     i=$((i+1))
 done
 wait
-{ echo "# all 20 quick checks against every behaviour-preserving change (repo $(git -C /repo rev-parse --short HEAD), $(date -u '+%Y-%m-%d %H:%M'))"; cat /root/benign.out.* | grep "^==\|^   C"; } > seeded/_benign/RESULT.txt
-cat seeded/_benign/RESULT.txt
-! grep -q "^   C" seeded/_benign/RESULT.txt
+OUT="${BENIGN_OUT:-seeded/_benign/RESULT.txt}"
+{ echo "# quick checks (${BENIGN_IDS:-all 20}) against every behaviour-preserving change (repo $(git -C /repo rev-parse --short HEAD), $(date -u '+%Y-%m-%d %H:%M'))"; cat /root/benign.out.* | grep "^==\|^   C"; } > "$OUT"
+cat "$OUT"
+! grep -q "^   C" "$OUT"
